@@ -11,6 +11,8 @@ from ..mon import hooks
 from ..mon.client import call
 from ..ctx import HarnessError
 
+PROBE_RATE = 0.0     # share of the failing steps which are probes (set by the C08 check)
+
 FRESH = ["new1", "Zq", "77", "1000", "x_y", "k9", "fresh.1", "31", "w", "M2"]
 
 
@@ -26,7 +28,7 @@ def gen_history(rng, version=None, nsteps=None, failing=0.0, canonical=True, fan
                        nedges=rng.randint(2, 7) if fanout else None, comments=False,
                        header=rng.random() < 0.3, ngaps=rng.choice([0, 1, 2]),
                        nog=rng.choice([0, 1, 2, 3]), nug=rng.choice([0, 1, 2, 3]),
-                       gaps_in_sets=rng.random() < 0.3)
+                       gaps_in_sets=rng.random() < 0.3, gaps_in_paths=rng.random() < 0.25)
     lines = d.lines()
     order = list(range(len(lines)))
     if rng.random() < 0.6:
@@ -78,6 +80,10 @@ def _gen_step(rng, sim, removed_pool, failing, tags):
         if r.rt in ("L", "C"):
             return None
         fresh = [f for f in FRESH if f not in sim.names()]
+        if rng.random() < 0.3:
+            # onto an identifier which is mentioned but not defined (the renamed line takes the
+            # place of the placeholder)
+            fresh = sorted({m for x in sim.recs for m, role in T.mentions(x) if m not in sim.names()}) or fresh
         if not fresh:
             return None
         new = rng.choice(fresh)
@@ -103,10 +109,64 @@ def _gen_step(rng, sim, removed_pool, failing, tags):
     return None
 
 
+def _gen_probe_step(rng, sim, named):
+    """a line which mentions identifiers in roles their carriers cannot play (a path through
+    another path's name, an edge between a group and a segment, ...), possibly among valid and
+    not-yet-defined ones, and possibly itself taking the place of a placeholder.  The text model
+    does not say whether such a call must fail (UNSPECIFIED): it is executed as a probe, and
+    WHEN it raises the Gfa must be unchanged (C08)."""
+    v = sim.version
+    segs = [x.pos[0] for x in sim.recs if x.rt == "S"]
+    nonsegs = [n for n, r in named if r.rt != "S"]
+    undefined = sorted({m for x in sim.recs for m, role in T.mentions(x) if m not in sim.names()})
+    fresh = [f for f in FRESH if f not in sim.names()]
+    pool = segs * 2 + fresh[:2] + undefined
+    if not nonsegs or not pool:
+        return None
+    bad = rng.choice(nonsegs)
+    name = rng.choice((undefined or fresh[:1]) + fresh[:1] + ["*"])
+    if v == "gfa1":
+        k = rng.randint(2, 5)
+        items = [rng.choice(pool) for _ in range(k)]
+        items[rng.randrange(1 if k == 2 else 0, k)] = bad
+        if rng.random() < 0.2:
+            items[rng.randrange(k)] = rng.choice(nonsegs)
+        r = rng.random()
+        if r < 0.6:
+            pn = name if name != "*" and S.fm("name1", name) else "pq"
+            line = "P\t%s\t%s\t%s" % (pn, ",".join(i + rng.choice("+-") for i in items),
+                                      rng.choice(["*", ",".join(["*"] * (k - 1))]))
+        elif r < 0.8:
+            line = "L\t%s\t+\t%s\t-\t*" % (items[0], items[1])
+        else:
+            line = "C\t%s\t+\t%s\t-\t0\t*" % (items[0], items[1])
+    else:
+        a, b = rng.choice(pool), bad
+        if rng.random() < 0.5:
+            a, b = b, a
+        r = rng.random()
+        if r < 0.35:
+            line = "E\t%s\t%s+\t%s-\t0\t1\t0\t1\t*" % (name, a, b)
+        elif r < 0.5:
+            line = "G\t%s\t%s+\t%s-\t10\t*" % (name, a, b)
+        elif r < 0.6:
+            line = "F\t%s\tread+\t0\t1\t0\t1\t*" % bad
+        else:
+            # a group that lists something it may not list (a set inside a path), after valid items
+            sets = [n for n, x in named if x.rt == "U"] or nonsegs
+            k = rng.randint(2, 4)
+            items = [rng.choice(pool) for _ in range(k)]
+            items[rng.randrange(1, k)] = rng.choice(sets)
+            line = "O\t%s\t%s" % (name, " ".join(i + rng.choice("+-") for i in items))
+    return {"op": "add", "line": line, "as": rng.choice(["str", "line"]), "expect": "probe"}
+
+
 def _gen_failing_step(rng, sim, named):
     """a step the model marks as expected-to-fail with a gfapy.Error, leaving the state alone."""
     k = rng.random()
     v = sim.version
+    if rng.random() < PROBE_RATE:
+        return _gen_probe_step(rng, sim, named)
     if k < 0.35 and len(named) >= 1:
         # add a record whose identifier is in use (every ordered pair of record types)
         n, r = rng.choice(named)
@@ -186,6 +246,42 @@ def rename_verdict(model, r, new):
             if m == new:
                 roles.add(role)
     if roles:
+        if model.version == "gfa1" and r.rt == "S":
+            # two links which become links between the same segment ends are parallel links:
+            # whether the second one is a duplicate depends on its overlap (UNSPECIFIED, §3.1)
+            old = T.ident(r)
+            seen = set()
+            for x in model.recs:
+                if x.rt == "L":
+                    f, fo, t, to = [new if y == old else y for y in x.pos[:4]]
+                    inv = {"+": "-", "-": "+"}
+                    k = min((f, fo, t, to), (t, inv.get(to, to), f, inv.get(fo, fo)))
+                    if k in seen:
+                        return "unspec"
+                    seen.add(k)
+        if model.version == "gfa2" and r.rt == "S":
+            # the positions of the edges/fragments which mention the identifier were written for
+            # another segment length: the resulting text need not be a valid document
+            try:
+                slen = int(r.pos[1])
+            except ValueError:
+                return "unspec"
+            for x in model.recs:
+                cols = []
+                if x.rt == "E":
+                    cols = [c for i, c in ((1, (3, 4)), (2, (5, 6))) if x.pos[i][:-1] == new]
+                elif x.rt == "F" and x.pos[0] == new:
+                    cols = [(2, 3)]
+                for cc in cols:
+                    for c in cc:
+                        p = x.pos[c]
+                        if not p.rstrip("$").isdigit():
+                            return "unspec"
+                        if (p.endswith("$") and int(p[:-1]) != slen) or int(p.rstrip("$")) > slen or \
+                                (not p.endswith("$") and int(p) == slen):
+                            return "unspec"
+        if any(m == new for m, role in T.mentions(r)):
+            return "fail"           # the record would become its own item
         if r.rt == "S" or (roles == {"item"} and r.rt in ("E", "O")):
             return "ok"
         return "unspec"
@@ -333,6 +429,27 @@ def run_history(case, ctx, compare_every=True):
     shape = []
     for si, st in enumerate(case["steps"]):
         verdict = _apply_model_preview(model, st)
+        if st.get("expect") == "probe" and verdict not in ("ok", "merge"):
+            # the model has no verdict: WHEN the call raises, the Gfa must be unchanged
+            before = O.obs(g)
+            out = do_step(ctx, g, st, version, vlevel)
+            if out is None:
+                return shape
+            ctx.count("probe_calls")
+            if out.ok:
+                ctx.count("probe_calls_accepted")
+                return shape        # the state is not one the model can follow
+            ctx.count("failing_calls")
+            ctx.count("probe_calls_failed")
+            ctx.add("failure_classes", "probe/%s/%s" % (st["line"].split("\t")[0], out.cls()))
+            after = O.obs(g)
+            if after != before:
+                d = O.diff_obs(before, after)
+                ctx.violation("state-changed-by-failed-call/probe-%s/%s" % (st["line"].split("\t")[0], _what_changed(d)),
+                              "step %d %r raised %s but the Gfa changed:\n  %s"
+                              % (si, st, out.cls(), "\n  ".join(d[:4])), prop="C08")
+            shape.append("F:probe")
+            continue
         if verdict == "skip" or verdict == "unspec":
             ctx.count("steps_skipped_" + verdict)
             continue
